@@ -29,6 +29,11 @@ def ratCmp (a b : Rat) : Int := if a < b then -1 else if a = b then 0 else 1
 /-- value of a dyadic / of a finite float -/
 def Dy.toRat (d : Dy) : Rat := (d.n : Rat) * (2 : Rat) ^ d.k
 
+/-- the rational denoted by a finite float (0 for the non-finite ones, which the theorems exclude) -/
+def PyFloat.toRat : PyFloat → Rat
+  | .fin neg d => (if neg then -1 else 1) * d.toRat
+  | _ => 0
+
 namespace IEEE
 
 /-- an interchange format: exponent bits, trailing-significand bits -/
